@@ -7,6 +7,7 @@ package parser
 import (
 	"bytes"
 	"strconv"
+	"unicode"
 
 	"github.com/go-python/gpython/py"
 )
@@ -26,8 +27,9 @@ func DecodeEscape(in *bytes.Buffer, byteMode bool) (out *bytes.Buffer, err error
 	decodeHex := func(what byte, i, size int) error {
 		i++
 		if i+size <= len(runes) {
-			cout, err := strconv.ParseInt(string(runes[i:i+size]), 16, 32)
-			if err != nil {
+			// NB ParseUint doesn't accept a sign, unlike ParseInt
+			cout, err := strconv.ParseUint(string(runes[i:i+size]), 16, 32)
+			if err != nil || cout > unicode.MaxRune {
 				return py.ExceptionNewf(py.ValueError, "invalid \\%c escape at position %d", what, i-2)
 			}
 			if byteMode {
